@@ -255,6 +255,12 @@ def analyse(case):
                         # side with a large component outside range(J) (noise) makes x_ls small without making its error small
                         ynorm = math.sqrt(math.fsum(v * v for v in Yv))
                         info['scale_x'] = max(normA * max(max(abs(v) for v in xls), ynorm / sv[0]) + max(abs(v) for v in sh.b), 1e-300)
+                        # componentwise: x_i = sum_j A_ij xls_j + b_i, the error of xls is normwise (each xls_j off by up to
+                        # tol * max|xls|), so component i is off by at most tol * (sum_j |A_ij|) * max|xls| (+ the rounding of b_i).
+                        # A normwise scale would hide a dropped SMALL entry of A in a row whose other entries are small too
+                        # (seeded change c07e: off-diagonals below 1e-5 / 1e-12 of the largest diagonal entry ignored)
+                        mx = max(max(abs(v) for v in xls), ynorm / sv[0])
+                        info['scale_xi'] = [max(sum(abs(v) for v in sh.A[i]) * mx + abs(sh.b[i]), 1e-300) for i in range(sh.est)]
                         info['inv_norm'] = 1.0 / (sv[-1] * sv[-1]) if sv[-1] > 0 else math.inf
                         last_inv = ('inv', info)
                     else:
@@ -354,6 +360,9 @@ def compare(case, li, op, impl, model):
         fin = [(x, y) for x, y in zip(va, vb) if not math.isnan(x)]
         if not fin:
             return True
+        if a[0] == 'x' and info.get('scale_xi') and len(info['scale_xi']) == len(va):
+            return all(math.isnan(x) or abs(x - y) <= tol * max(si, abs(x), abs(y)) or (math.isinf(si) and x == y)
+                       for x, y, si in zip(va, vb, info['scale_xi']))
         scale = max(scale or 0.0, max(max(abs(x), abs(y)) for x, y in fin))
         if math.isinf(scale):
             return all(x == y for x, y in fin)
@@ -429,7 +438,23 @@ def _write_rows(lines, tok, rows, ys, idx):
 
 
 def _precond(rng, T, e, tok):
-    mode = rng.below(4)
+    mode = rng.below(5)
+    if mode == 4 and e >= 2:
+        # ALMOST diagonal: diagonal entries over several decades plus a few off-diagonal entries 1e-3 .. 1e-14 of the largest one —
+        # "is this matrix diagonal?" asked with a fuzzy predicate says yes, yet in a row with a small diagonal entry the coupling term
+        # is as large as the rest of the row (seeded change c07e: Eigen's isDiagonal() fast path)
+        big = rng.loguniform(1.0, 1e6)
+        A = [[(big * rng.loguniform(1e-8, 1.0) if i == j else 0.0) for j in range(e)] for i in range(e)]
+        A[rng.below(e)][rng.below(e)] = big if e else 1.0
+        for _ in range(rng.int(1, 3)):
+            i, j = rng.below(e), rng.below(e)
+            if i != j:
+                A[i][j] = big * 10.0 ** -rng.uniform(3.0, 14.0 if T == 'd' else 7.0) * rng.choice([1.0, -1.0])
+        A = [[_rnd(T, v) for v in r] for r in A]
+        if all(A[i][i] != 0.0 for i in range(e)):
+            b = [_rnd(T, rng.uniform(-1, 1)) if rng.chance(0.5) else 0.0 for _ in range(e)]
+            return 'ls.pre ' + ' '.join(tok(v) for r in A for v in r) + ' ' + ' '.join(tok(v) for v in b)
+        mode = 0
     if mode == 0:      # diagonal scaling (what FindRigidTransformationByLeastSquares uses)
         A = [[(rng.loguniform(1e-3, 1e3) if i == j else 0.0) for j in range(e)] for i in range(e)]
     elif mode == 1:    # general well-conditioned matrix
@@ -736,8 +761,12 @@ def oracle(case, out, stats):
         err = max(abs(a - b) for a, b in zip(x, xref))
         bump('estimates_checked')
         bump('estimates_%s_%s' % (op[3:], info['T']))
-        stats['max_err_over_tol'] = max(stats.get('max_err_over_tol', 0.0), err / (tol * scale))
-        if not (err <= tol * scale):
+        sxi = info.get('scale_xi') or [scale] * len(x)
+        worst = max(abs(a - b) / (tol * si) for a, b, si in zip(x, xref, sxi))
+        stats['max_err_over_tol'] = max(stats.get('max_err_over_tol', 0.0), worst)
+        if not (worst <= 1.0):
+            iw = max(range(len(x)), key=lambda i_: abs(x[i_] - xref[i_]) / (tol * sxi[i_]))
+            err, scale = abs(x[iw] - xref[iw]), sxi[iw]
             kind = 'weighted-minimiser' if op == 'ls.wls' else 'minimiser'
             bad(kind, 'x differs from A*x_ls+b of the current rows by %.3g (scale %.3g, allowed %.3g, cond %.3g, n=%d e=%d)' % (
                 err, scale, tol * scale, info['cond'], info['n'], e), cond=info['cond'], n=info['n'], e=e, T=info['T'], op=op)
